@@ -254,6 +254,15 @@ func (e *Exec) applyContract(con *Contract, fn *ssa.Function, sig *types.Signatu
 // paramNames returns the names under which the arguments are visible to the contract.
 func contractParamNames(con *Contract, fn *ssa.Function, n int) []string {
 	var names []string
+	if fn != nil && len(con.ParamNames) > 0 && len(con.ParamNames) == len(fn.Params) {
+		// the contract names receiver and parameters itself (bound by position): renaming them in the source
+		// does not touch the contract
+		names = append(names, con.ParamNames...)
+		for _, fv := range fn.FreeVars {
+			names = append(names, fv.Name())
+		}
+		return names
+	}
 	if fn != nil && len(fn.Params)+len(fn.FreeVars) >= n && (len(con.Params) == 0 || !con.Extern || con.Opaque) {
 		for _, p := range fn.Params {
 			names = append(names, p.Name())
